@@ -129,6 +129,20 @@ Proof.
   - rewrite O2, !map_map. apply map_ext. intros g. now rewrite gfaces_written, gfaces_resolved.
 Qed.
 
+(* both in one statement (Properties/C05.v obj_load_save_load_files) *)
+Theorem load_save_load_full file fs defs : valid file = true -> load_defs fs (lib_names file) = Ok defs ->
+  exists gs1 ls gs2,
+    load fs file = Ok gs1 /\ fst (save_all gs1) = Ok ls /\ load (snd (save_all gs1)) ls = Ok gs2 /\
+    map gfaces (map obs gs1) = map gfaces (file_groups file) /\
+    map gfaces (map obs gs2) = map gfaces (file_groups file) /\
+    map obs gs2 = map gobs_written (map (gobs_resolved defs) (file_groups file)).
+Proof.
+  intros V D. destruct (load_save_load file fs defs V D) as (gs1 & ls & gs2 & L1 & O1 & S & L2 & O2).
+  exists gs1, ls, gs2. repeat split; auto.
+  - rewrite O1, map_map. apply map_ext. intros g. apply gfaces_resolved.
+  - rewrite O2, !map_map. apply map_ext. intros g. now rewrite gfaces_written, gfaces_resolved.
+Qed.
+
 (* recorded behaviour (not excluded by the property: no face is lost): a usemtl name that no library defines is
    loaded as the nil material and therefore saved as DefaultDiffuse *)
 Definition file_undefined_material : list line :=
